@@ -241,6 +241,10 @@ func oracleC15(r *report, g *G, n int, single string) {
 		if len(f) == 2 && (f[0] == "VBDEC" || f[0] == "VBSTR") {
 			checkVbBytes(r, unhex(firstChunk(f[1])))
 		}
+		if len(f) >= 2 && f[0] == "H" {
+			k, _ := strconv.Atoi(f[1])
+			roundTrip(r, k, f[2:])
+		}
 		return
 	}
 	if n == 0 {
@@ -376,6 +380,25 @@ func oracleC15(r *report, g *G, n int, single string) {
 			r.fail("vb-api-roundtrip", "SetSubscriptionID "+strconv.FormatUint(v, 10), strconv.Itoa(got))
 		}
 		r.eval("api", true, "api"+strconv.FormatUint(v, 10))
+	}
+	// the property length and the subscription identifiers at their call sites: packets whose
+	// property section is exactly 126..129, 255..257, 383..385, 512, 16383..16385 bytes long,
+	// every type; PUBLISH with one and several subscription identifiers at every boundary
+	for _, bc := range propBoundaryCases(g) {
+		roundTrip(r, bc.k, bc.cs)
+	}
+	for _, v := range vbBoundaries {
+		if v == 0 {
+			continue
+		}
+		vs := strconv.FormatUint(v, 10)
+		roundTrip(r, 3, []string{"SetTopicName:74", "AddSubscriptionID:" + vs})
+		roundTrip(r, 3, []string{"SetTopicName:74", "AddSubscriptionID:1", "AddSubscriptionID:" + vs, "AddSubscriptionID:127", "SetPayload:7061"})
+		roundTrip(r, 8, []string{"SetPacketID:3", "SetSubscriptionID:" + vs, "AddFilter:61:1", "AddUserProp:6b:76"})
+	}
+	// remaining lengths at the boundaries, through ReadPacket
+	for _, bc := range boundaryCases(g) {
+		roundTrip(r, bc.k, bc.cs)
 	}
 }
 
@@ -780,6 +803,7 @@ func oracleDecode(r *report, g *G, n int, single string, bounded bool) {
 	}
 	if bounded {
 		oracleAlloc(r, g)
+		bigFrameStreams(r, g, true)
 	}
 	// a remaining length that never ends, or ends after 5..11 bytes with any last byte: the
 	// header reader must give up after five bytes (C05) and must not panic on the value (C04)
@@ -809,18 +833,98 @@ func oracleDecode(r *report, g *G, n int, single string, bounded bool) {
 
 // allocation proportional to the declared frame length
 func oracleAlloc(r *report, g *G) {
-	for i := 0; i < 200; i++ {
-		f := g.mutate(g.validFrame())
+	measure := func(f []byte, class string) {
 		var m0, m1 runtimeMem
+		// warm up (the first call of a kind pays for lazily initialised tables), then measure
+		readOnce(oneChunk(f))
 		readMem(&m0)
 		readOnce(oneChunk(f))
 		readMem(&m1)
 		rl, _ := splitFrame(f)
-		limit := uint64(64*(rl+len(f)) + 1<<16)
+		limit := uint64(64*(rl+len(f)) + 24<<10)
 		if d := m1.total - m0.total; d > limit {
 			r.fail("decode-alloc", "R 1 "+hexs(f), fmt.Sprintf("allocated %d bytes for a frame of %d (declared %d)", d, len(f), rl))
 		}
-		r.eval("alloc", true, "alloc"+hexs(f))
+		r.eval(class, true, "alloc"+hexs(f))
+	}
+	for i := 0; i < 200; i++ {
+		measure(g.mutate(g.validFrame()), "alloc")
+	}
+	// a two-byte length prefix of 0xFFFE/0xFFFF (or another large value) written over any
+	// two bytes of a short frame, the frame cut shortly after it
+	for i := 0; i < 600; i++ {
+		f := g.validFrame()
+		_, hl := splitFrame(f)
+		if hl == 0 || len(f) < hl+2 || len(f) > 400 {
+			continue
+		}
+		body := append([]byte{}, f[hl:]...)
+		at := g.pick(len(body) - 1)
+		v := []uint16{0xffff, 0xfffe, 0xfffd, 0xff00, 0x8000}[g.pick(5)]
+		body[at], body[at+1] = byte(v>>8), byte(v)
+		if g.chance(70) {
+			end := at + 2 + g.pick(4)
+			if end < len(body) {
+				body = body[:end]
+			}
+		}
+		measure(append(append([]byte{f[0]}, vbEnc(uint64(len(body)))...), body...), "alloc-long-prefix")
+	}
+	for _, f := range [][]byte{{0x30, 3, 0xff, 0xff, 'a'}, {0x30, 3, 0xff, 0xfe, 'a'}, {0xa2, 6, 0, 1, 0, 0xff, 0xff, 'a'},
+		{0x82, 6, 0, 1, 0, 0xff, 0xff, 'a'}, {0x10, 4, 0xff, 0xff, 'M', 'Q'}, {0xe0, 7, 0, 5, 0x26, 0xff, 0xff, 'a', 'b'},
+		{0xe0, 9, 0, 7, 0x26, 0, 1, 'k', 0xff, 0xff, 'v'}, {0x20, 7, 0, 0, 4, 0x12, 0xff, 0xff, 'a'}} {
+		measure(f, "alloc-long-prefix")
+	}
+}
+
+// big frames with more of the stream behind them: exactly the frame is taken
+func bigFrameStreams(r *report, g *G, bounded bool) {
+	for i := 0; i < 6; i++ {
+		var frame []byte
+		switch i % 3 {
+		case 0:
+			frame = g.bigPublish()
+		case 1: // SUBACK with more than 64 Ki reason codes
+			body := append([]byte{0, 9, 0}, bytesRepeat(byte(g.pick(3)), 65537+g.pick(3000))...)
+			frame = append(append([]byte{0x90}, vbEnc(uint64(len(body)))...), body...)
+		default: // UNSUBSCRIBE with many filters
+			body := []byte{0, 9, 0}
+			for len(body) < 66000+g.pick(3000) {
+				body = append(body, 0, 1, 'f')
+			}
+			frame = append(append([]byte{0xa2}, vbEnc(uint64(len(body)))...), body...)
+		}
+		tail := []byte{}
+		for len(tail) < 70000+g.pick(70000) {
+			tail = append(tail, [][]byte{{0xc0, 0}, {0x40, 2, 0, 7}, {0xd0, 0}}[g.pick(3)]...)
+		}
+		stream := append(append([]byte{}, frame...), tail...)
+		c := fmt.Sprintf("R 1 %s... (%d-byte frame followed by %d bytes)", hexs(frame[:12]), len(frame), len(tail))
+		for _, mk := range []func() (io.Reader, func() int){
+			func() (io.Reader, func() int) { rd := oneChunk(stream); return rd, func() int { return len(stream) - rd.got } },
+			func() (io.Reader, func() int) { b := bytes.NewBuffer(append([]byte{}, stream...)); return b, b.Len },
+			func() (io.Reader, func() int) { b := bytes.NewReader(stream); return b, b.Len },
+			func() (io.Reader, func() int) {
+				rd := scriptOf(stream, []int{len(frame) / 2, len(frame) - len(frame)/2, len(tail)}, false, 0)
+				return rd, func() int { return len(stream) - rd.got }
+			},
+		} {
+			rd, left := mk()
+			o := readNative(rd, frame[:12])
+			alone := readOnce(oneChunk(frame))
+			if got := len(stream) - left(); got != len(frame) {
+				r.fail("sequence-consumed", c, fmt.Sprintf("consumed %d bytes of the stream for a frame of %d", got, len(frame)))
+			}
+			if o.verdict() != alone.verdict() {
+				r.fail("sequence-result", c, "in a stream "+trunc(o.verdict())+", alone "+trunc(alone.verdict()))
+			}
+			if bounded && o.kind >= 0 {
+				if l := countLists(o.p); l > len(frame) {
+					r.fail("decode-unbounded", c, fmt.Sprintf("LISTS %d > %d bytes", l, len(frame)))
+				}
+			}
+			r.eval("big-frame-in-stream", true, c)
+		}
 	}
 }
 
@@ -910,6 +1014,7 @@ func oracleC06(r *report, g *G, n int, single string) {
 		all = append(all, g.bytesN(g.pick(5))...)
 		checkSequenceBytes(r, g, all, "")
 	}
+	bigFrameStreams(r, g, false)
 	r.sample(map[string]string{"stream": "9002000a c000 + trailing", "expect": "SUBACK then PINGREQ, 4 and 2 bytes consumed"})
 }
 
@@ -1424,6 +1529,133 @@ type kcs struct {
 	cs []string
 }
 
+var roOps = []string{"~String", "~Dump", "~WriteTo", "~WellFormed", "~Acc", "~FailWrite", "~String", "~WriteTo"}
+
+// interleaveRO inserts read-only operations into a history (at least one of
+// them before the last call): what a packet was asked earlier must not matter.
+func (g *G) interleaveRO(cs []string) []string {
+	if len(cs) == 0 {
+		return cs
+	}
+	out := []string{}
+	first := g.pick(len(cs))
+	for i, c := range cs {
+		if i == first || g.chance(25) {
+			out = append(out, roOps[g.pick(len(roOps))])
+			if g.chance(30) {
+				out = append(out, roOps[g.pick(len(roOps))])
+			}
+		}
+		out = append(out, c)
+	}
+	return out
+}
+
+func stripRO(cs []string) []string {
+	var out []string
+	for _, c := range cs {
+		switch c {
+		case "~String", "~Dump", "~WriteTo", "~WellFormed", "~Acc", "~FailWrite":
+		default:
+			out = append(out, c)
+		}
+	}
+	return out
+}
+
+// minimal valid history per type (what a packet needs besides the field under test)
+func baseCalls(k int) []string {
+	switch k {
+	case 3:
+		return []string{"SetTopicName:74"}
+	case 8:
+		return []string{"SetPacketID:3", "AddFilter:61:1"}
+	case 10:
+		return []string{"SetPacketID:3", "AddUnsubFilter:61"}
+	case 9, 11:
+		return []string{"SetPacketID:3", "AddReasonCode:0"}
+	case 4, 5, 6, 7:
+		return []string{"SetPacketID:3"}
+	}
+	return nil
+}
+
+// stringBoundaryCases: every string/binary setter of every type (and of the will)
+// with values of 0, 1, 127, 128, 16383, 16384, 65533, 65534 and 65535 bytes.
+func stringBoundaryCases(g *G, lens []int) []kcs {
+	var out []kcs
+	for _, k := range allKinds {
+		for _, st := range settersOf(k) {
+			for _, l := range lens {
+				v := hexs(g.bytesN(l))
+				if l == 0 {
+					v = "-"
+				}
+				var call string
+				switch st.typ {
+				case "str", "bin":
+					call = st.name + ":" + v
+				case "up":
+					if l == 0 {
+						continue
+					}
+					if g.chance(50) {
+						call = st.name + ":" + v + ":76"
+					} else {
+						call = st.name + ":6b:" + v
+					}
+				case "filter":
+					call = st.name + ":" + v + ":1"
+				case "ufilter":
+					call = st.name + ":" + v
+				default:
+					continue
+				}
+				out = append(out, kcs{k, append(append([]string{}, baseCalls(k)...), call)})
+			}
+		}
+	}
+	for _, st := range willSetters {
+		if st.typ != "str" && st.typ != "bin" {
+			continue
+		}
+		for _, l := range lens {
+			out = append(out, kcs{1, []string{"SetWill:[SetTopicName:74;" + st.name + ":" + hexs(g.bytesN(l)) + "]"}})
+		}
+	}
+	return out
+}
+
+// propBoundaryCases: packets whose property section is exactly 127..129, 255..257,
+// 383..385, 16383..16385 bytes long (a user property padded to fit), for every
+// type that carries user properties, and for the will properties.
+func propBoundaryCases(g *G) []kcs {
+	var out []kcs
+	targets := []int{126, 127, 128, 129, 255, 256, 257, 383, 384, 385, 512, 16383, 16384, 16385, 16512}
+	for _, k := range allKinds {
+		hasUP := false
+		for _, st := range settersOf(k) {
+			if st.typ == "up" {
+				hasUP = true
+			}
+		}
+		if !hasUP {
+			continue
+		}
+		for _, t := range targets {
+			// identifier (1) + key length (2) + key (1) + value length (2) + value
+			n := t - 6
+			out = append(out, kcs{k, append(append([]string{}, baseCalls(k)...), "AddUserProp:6b:"+hexs(g.bytesN(n)))})
+			// ... and split over two properties
+			out = append(out, kcs{k, append(append([]string{}, baseCalls(k)...), "AddUserProp:6b:"+hexs(g.bytesN(n-10)), "AddUserProp:61:"+hexs(g.bytesN(4)))})
+		}
+	}
+	for _, t := range targets {
+		out = append(out, kcs{1, []string{"SetWill:[SetTopicName:74;AddUserProp:6b:" + hexs(g.bytesN(t-6)) + "]"}})
+	}
+	return out
+}
+
 // boundaryCases builds, for every packet type with a string field, packets whose remaining
 // length is exactly 126..129 and 16382..16385: the sizes at which the remaining-length field
 // changes form (also hits property-length boundaries on the way).
@@ -1526,6 +1758,21 @@ func oracleC01(r *report, g *G, n int, single string) {
 	for _, bc := range boundaryCases(g) {
 		roundTrip(r, bc.k, bc.cs)
 	}
+	for _, bc := range stringBoundaryCases(g, []int{65533, 65534, 65535}) {
+		roundTrip(r, bc.k, bc.cs)
+	}
+	for _, bc := range propBoundaryCases(g) {
+		roundTrip(r, bc.k, bc.cs)
+	}
+	// a will attached twice (the second replaces the first in every respect), with every pair of QoS
+	for q1 := 0; q1 < 3; q1++ {
+		for q2 := 0; q2 < 3; q2++ {
+			for ret := 0; ret < 2; ret++ {
+				roundTrip(r, 1, []string{fmt.Sprintf("SetWill:[SetTopicName:74;SetQoS:%d;SetRetain:%d;SetPayload:7061]", q1, 1-ret),
+					fmt.Sprintf("SetWill:[SetTopicName:75;SetQoS:%d;SetRetain:%d]", q2, ret)})
+			}
+		}
+	}
 	r.sample(map[string]string{"case": "H 1 SetWill:[SetRetain:1;SetQoS:2;SetTopicName:74] SetUsername:75", "check": "write, read, all accessors equal, re-encode identical"})
 }
 
@@ -1621,8 +1868,22 @@ func oracleC10(r *report, g *G, n int, single string) {
 		}
 		g.domain = false
 		check(k, cs)
+		// the same packet asked for its size, text or bytes while it was being built
+		if len(cs) > 0 {
+			csi := g.interleaveRO(cs)
+			check(k, csi)
+			if a, b := frameOf(build(k, csi)), frameOf(build(k, cs)); !bytesEq(a, b) {
+				r.fail("write-after-readonly", "W "+strconv.Itoa(k)+" A"+sp(csi), "a packet that was printed or written while under construction writes "+trunc(hexs(a))+", the same calls without that "+trunc(hexs(b)))
+			}
+		}
 	}
 	for _, bc := range boundaryCases(g) {
+		check(bc.k, bc.cs)
+	}
+	for _, bc := range stringBoundaryCases(g, []int{65533, 65534, 65535}) {
+		check(bc.k, bc.cs)
+	}
+	for _, bc := range propBoundaryCases(g) {
 		check(bc.k, bc.cs)
 	}
 	r.sample(map[string]string{"case": "W 4 S3:7 SetPacketID:1", "expect": "one Write of the whole frame, n=3, err=injected"})
@@ -1654,6 +1915,8 @@ func readOnlyOps(p mq.Packet, g *G) {
 }
 
 func oracleC11(r *report, g *G, n int, single string) {
+	pollute(g)
+	defer checkCanary(r, "after the determinism oracle")
 	var crossCases []string
 	check := func(k int, cs []string) {
 		c := "W " + strconv.Itoa(k) + " A" + sp(cs)
@@ -1713,6 +1976,24 @@ func oracleC11(r *report, g *G, n int, single string) {
 			cs = append(cs, "SetWill:[SetTopicName:74;SetPayloadFormat:1;SetMessageExpiryInterval:5;SetContentType:63;SetResponseTopic:72;SetCorrelationData:64]", "SetWillDelayInterval:9")
 		}
 		check(k, cs)
+		// outside the round-trip domain but inside this property: a will message that is
+		// changed after it was attached (reading must still not write), several filters
+		// handed over in one call from a slice the caller reuses, read-only calls in the
+		// middle of the history
+		switch {
+		case k == 1:
+			ws := willSetters[g.pick(len(willSetters))]
+			old := g.domain
+			g.domain = true
+			cs2 := append(append([]string{}, cs...), "SetWill:["+[]string{"SetQoS:1", "SetQoS:2;SetRetain:1", "SetTopicName:74", ""}[g.pick(4)]+"]",
+				"~WillSet:"+ws.name+":"+g.arg(ws), "~WillSet:SetRetain:"+g.boolS(), "~WillSet:SetQoS:"+strconv.Itoa(g.pick(3)))
+			g.domain = old
+			check(k, cs2)
+		case k == 8:
+			check(k, append(append([]string{}, cs...), "~Spread:612f62:1,63:2,642f23:0", "AddFilter:65:1"))
+		default:
+			check(k, g.interleaveRO(cs))
+		}
 	}
 	// other processes (fresh hash seeds): same bytes
 	if len(crossCases) > 0 {
@@ -1815,6 +2096,13 @@ func (s *specPkt) apply(tok string) {
 		name, arg = tok[:i], tok[i+1:]
 	}
 	switch name {
+	case "~String", "~Dump", "~WriteTo", "~FailWrite", "~WellFormed", "~Acc":
+		return // read-only operations change nothing
+	case "~Spread":
+		for _, it := range strings.Split(arg, ",") {
+			s.apply("AddFilter:" + it)
+		}
+		return
 	case "SetWill":
 		w := newSpec(3)
 		inner := arg[1 : len(arg)-1]
@@ -2025,6 +2313,18 @@ func oracleC12(r *report, g *G, n int, single string) {
 		if inDomain {
 			cs = lastWriteDomain(k, cs)
 		}
+		if k == 8 && g.chance(40) {
+			// several filters in one call, from a slice the caller goes on using
+			var items []string
+			for j := 0; j < 1+g.pick(4); j++ {
+				items = append(items, strings.TrimPrefix(g.arg(setter{"AddFilter", "filter"}), "AddFilter:"))
+			}
+			at := g.pick(len(cs) + 1)
+			cs = append(append(append([]string{}, cs[:at]...), "~Spread:"+strings.Join(items, ",")), cs[at:]...)
+		}
+		if g.chance(40) {
+			cs = g.interleaveRO(cs)
+		}
 		check(k, cs)
 		inDomain = false
 	}
@@ -2110,6 +2410,30 @@ func oracleC17(r *report, g *G, n int, single string) {
 		o := readOnce(oneChunk(frameOf(p)))
 		if o.kind >= 0 {
 			judge(o.p, c, "decoded", nil)
+		}
+		// the verdict is about the packet as it is now, whatever it was asked before:
+		// the same history with WellFormed/String/... calls in between
+		if len(cs) > 1 {
+			csi := g.interleaveRO(cs)
+			ci := "H " + strconv.Itoa(k) + sp(csi)
+			pi := build(k, csi)
+			judge(pi, ci, "built with earlier read-only calls", cs)
+			// ... and a decoded packet that is changed afterwards
+			early := false
+			for _, call := range cs[:len(cs)-1] {
+				if strings.HasPrefix(call, "SetSubscriptionID:") {
+					early = true
+				}
+			}
+			if o.kind >= 0 && !early {
+				last := cs[len(cs)-1]
+				func() {
+					defer func() { recover() }()
+					_ = o.p.String()
+					applyCall(o.p, last)
+					judge(o.p, c+" (decoded, printed, then "+last+")", "decoded then modified", []string{last})
+				}()
+			}
 		}
 		r.eval(fmt.Sprintf("type%d", k), true, c)
 	}
@@ -2209,9 +2533,19 @@ func renderBoth(p mq.Packet) (s string, d string, panicked bool) {
 
 func oracleC18(r *report, g *G, n int, single string) {
 	check := func(cs []string, u1, p1, u2, p2 []byte) {
+		// the credentials are set at the same (random) point of both histories: before or
+		// after the will, the client identifier and the rest
+		at := 0
+		if len(cs) > 0 {
+			at = g.pick(len(cs) + 1)
+		}
+		if g.chance(40) {
+			at = len(cs)
+		}
 		mk := func(u, pw []byte) []string {
-			out := append([]string{}, cs...)
-			return append(out, "SetUsername:"+hexs(u), "SetPassword:"+hexs(pw))
+			out := append([]string{}, cs[:at]...)
+			out = append(out, "SetUsername:"+hexs(u), "SetPassword:"+hexs(pw))
+			return append(out, cs[at:]...)
 		}
 		c := "S 1" + sp(mk(u1, p1)) + " || " + hexs(u2) + " " + hexs(p2)
 		a, b := build(1, mk(u1, p1)), build(1, mk(u2, p2))
@@ -2286,6 +2620,26 @@ func oracleC18(r *report, g *G, n int, single string) {
 			filtered = append(filtered, "SetWill:[SetTopicName:74;SetPayload:"+hexs(p1)+"]")
 		case 3: // ... with the auth data
 			filtered = append(filtered, "SetAuthData:"+hexs(p2), "SetAuthMethod:"+hexs(u2))
+		}
+		if g.chance(25) {
+			// one of the pair is a string that software likes to treat specially (a byte order
+			// mark, a substitution pattern, a wildcard, ...), the other any string of that length
+			m := []byte(magic[g.pick(len(magic))])
+			if g.chance(50) {
+				m = append(m, g.bytesN(1+g.pick(4))...)
+			}
+			if len(m) > 0 {
+				if g.chance(50) {
+					u1, u2 = m, g.bytesN(len(m))
+				} else {
+					p1, p2 = m, g.bytesN(len(m))
+				}
+			}
+		}
+		if g.chance(25) {
+			// a will whose topic or payload holds a pattern a broker would substitute
+			pat := []string{"%u", "%c", "a/%u/%c", "%u/%p", "${username}", "$user"}[g.pick(6)]
+			filtered = append(filtered, "SetWill:[SetTopicName:"+hexs([]byte(pat))+";SetPayload:"+hexs([]byte(pat))+";SetResponseTopic:"+hexs([]byte(pat))+"]")
 		}
 		g.ascii = false
 		check(filtered, u1, p1, u2, p2)
@@ -2434,7 +2788,92 @@ func mqttWellFormed(k int, p mq.Packet) bool {
 	return true
 }
 
+// pollute exercises the library the way a long-running program does before the
+// operation under test: frames with unusual protocol names and values decoded
+// through ReadPacket and - what ReadPacket never does - into packets that came from
+// the constructors, twice into the same packet, and writes that fail. Nothing of this
+// may leave a trace in packets built or decoded afterwards.
+func pollute(g *G) {
+	un := func(k int, body []byte, times int) {
+		defer func() { recover() }()
+		p := newPacket(k)
+		if u, ok := p.(interface{ UnmarshalBinary([]byte) error }); ok {
+			for i := 0; i < times; i++ {
+				u.UnmarshalBinary(body)
+			}
+		}
+		p.WriteTo(&scriptWriter{mode: 'F', err: injectedErr(2)})
+		p.WriteTo(&scriptWriter{mode: 'S', k: 1, err: injectedErr(2)})
+		_ = p.String()
+	}
+	for _, nm := range []string{"mqtt", "MQIs", "abc", "x", "MQTT", "MQIsdp", "\x00\x00\x00\x00", "mq"} {
+		c := mq.NewConnect()
+		c.SetProtocolName(nm)
+		c.SetProtocolVersion(uint8(3 + g.pick(3)))
+		c.SetClientID("polluter")
+		c.SetUsername("polluter-name")
+		c.SetPassword([]byte("polluter-secret"))
+		w := mq.NewPublish()
+		w.SetTopicName("polluter/will")
+		w.SetPayload([]byte("polluter-payload"))
+		c.SetWill(w)
+		f := frameOf(c)
+		_, hl := splitFrame(f)
+		un(1, f[hl:], 2)
+		readOnce(oneChunk(f))
+	}
+	old := g.nomagic
+	for i := 0; i < 60; i++ {
+		f := g.validFrame()
+		_, hl := splitFrame(f)
+		if hl > 0 && hl <= len(f) {
+			un(int(f[0]>>4), f[hl:], 1+g.pick(2))
+			if m := g.mutate(f); g.chance(30) && len(m) > hl {
+				un(int(f[0]>>4), m[hl:], 1)
+			}
+		}
+	}
+	g.nomagic = old
+}
+
+// canary: what freshly constructed packets of every type write and print. Taken
+// when the process starts and compared again after the oracle's work.
+func canary() string {
+	var b strings.Builder
+	for _, k := range allKinds {
+		func() {
+			defer func() {
+				if e := recover(); e != nil {
+					b.WriteString("PANIC")
+				}
+			}()
+			p := newPacket(k)
+			b.WriteString(hexs(frameOf(p)) + " " + p.String() + " " + snapshot(p) + "|")
+			p = build(k, baseCalls(k))
+			b.WriteString(hexs(frameOf(p)) + " " + snapshot(p) + "|")
+		}()
+	}
+	return b.String()
+}
+
+var canary0 = canary()
+
+func checkCanary(r *report, where string) {
+	if c := canary(); c != canary0 {
+		i := 0
+		for i < len(c) && i < len(canary0) && c[i] == canary0[i] {
+			i++
+		}
+		lo := i - 60
+		if lo < 0 {
+			lo = 0
+		}
+		r.fail("global-state", "H 1", where+": freshly constructed packets no longer write/print what they did when the process started: ..."+trunc(c[lo:])+" before: ..."+trunc(canary0[lo:]))
+	}
+}
+
 func oracleC02(r *report, g *G, n int, single string) {
+	pollute(g)
 	type job struct {
 		c            string
 		line         string
@@ -2707,10 +3146,20 @@ func init() {
 // reported by the runtime on stderr; this function checks the bytes.
 func oracleC13(r *report, g *G, n int, single string) {
 	const workers = 8
+	pollute(g) // earlier decodes and failed writes must not set up sharing between later operations
 	for i := 0; i < n; i++ {
 		k := g.kind()
 		g.big = false
 		cs := g.domainCalls(k)
+		// a second packet of the same type with other content, used by the same goroutines:
+		// operations on different packets must not meet in shared scratch memory either
+		cs2 := g.domainCalls(k)
+		p2 := build(k, cs2)
+		want2 := frameOf(build(k, cs2))
+		if g.chance(50) {
+			build(k, cs2).WriteTo(&scriptWriter{mode: 'F', err: injectedErr(4)})
+			build(k, cs).WriteTo(&scriptWriter{mode: 'S', k: 1, err: injectedErr(4)})
+		}
 		// p is touched by the goroutines only: what it should produce is computed on a
 		// twin q built by the same calls, so that no sequential operation "warms up" p
 		p, q := build(k, cs), build(k, cs)
@@ -2758,9 +3207,13 @@ func oracleC13(r *report, g *G, n int, single string) {
 				lg := newG(seed)
 				for j := 0; j < 20; j++ {
 					switch lg.pick(7) {
-					case 0, 1:
+					case 0:
 						if f := frameOf(p); !bytesEq(f, want) {
 							r.fail("concurrent-bytes", c, "a concurrent WriteTo wrote "+trunc(hexs(f))+" sequential "+trunc(hexs(want)))
+						}
+					case 1:
+						if f := frameOf(p2); !bytesEq(f, want2) {
+							r.fail("concurrent-bytes", "W "+strconv.Itoa(k)+" A"+sp(cs2), "a WriteTo concurrent with writes of another packet wrote "+trunc(hexs(f))+" sequential "+trunc(hexs(want2)))
 						}
 					case 2:
 						if s := p.String(); s != wantS {
@@ -2804,6 +3257,8 @@ func oracleC13(r *report, g *G, n int, single string) {
 }
 
 func oracleC14(r *report, g *G, n int, single string) {
+	pollute(g)
+	defer checkCanary(r, "after the ownership oracle")
 	scribble := func(k int, body []byte) {
 		c := fmt.Sprintf("U %d z %s + overwrite input", k, hexs(body))
 		defer func() {
@@ -2962,6 +3417,81 @@ func oracleC14(r *report, g *G, n int, single string) {
 			}
 			r.eval("pool-step", true, fmt.Sprintf("pool%d-%d-%s", round, step, desc))
 		}
+	}
+	// twins: two frames that differ in one field only (one of them with the field empty or
+	// absent), sharing small identifiers (topic alias, packet identifier): a decoder that
+	// remembers anything between frames gives it away on the second of them
+	for i := 0; i < n/4+10; i++ {
+		k := g.kind()
+		g.domain, g.big = true, false
+		cs := domainFix(k, g.subset(k, 30+g.pick(70)))
+		g.domain, g.big = false, true
+		if k == 3 {
+			cs = append(cs, "SetTopicAlias:"+strconv.Itoa(1+g.pick(3)), "SetTopicName:"+hexs(g.nonEmpty()))
+		}
+		if len(cs) == 0 {
+			continue
+		}
+		drop := g.pick(len(cs))
+		if k == 3 && g.chance(60) {
+			drop = len(cs) - 1 // the topic name
+		}
+		var cs2 []string
+		for j, c := range cs {
+			if j != drop {
+				cs2 = append(cs2, c)
+			}
+		}
+		f1, f2 := frameOf(build(k, cs)), frameOf(build(k, cs2))
+		if len(f1) > 5000 {
+			continue
+		}
+		for order := 0; order < 2; order++ {
+			a, b := f1, f2
+			if order == 1 {
+				a, b = f2, f1
+			}
+			alone := readOnce(oneChunk(b)).verdict()
+			readOnce(oneChunk(a))
+			if after := readOnce(oneChunk(b)).verdict(); after != alone {
+				r.fail("decode-depends-on-history", "R 2 "+hexs(a)+" "+hexs(b), fmt.Sprintf("frame %s decodes to %s, after frame %s to %s", trunc(hexs(b)), trunc(alone), trunc(hexs(a)), trunc(after)))
+			}
+			// forget: a CONNECT and a DISCONNECT in between must not matter either
+			readOnce(oneChunk(frameOf(build(1, []string{"SetClientID:63"}))))
+		}
+		r.eval("twin-frames", true, hexs(f1))
+	}
+	// filters handed from one SUBSCRIBE to another: from then on the two are separate packets
+	for i := 0; i < n/10+5; i++ {
+		nf := 1 + g.pick(5)
+		cs := []string{"SetPacketID:7"}
+		for j := 0; j < nf; j++ {
+			cs = append(cs, "AddFilter:"+hexs(g.nonEmpty())+":"+strconv.Itoa(g.pick(3)))
+		}
+		fa := frameOf(build(8, cs))
+		var a *mq.Subscribe
+		if g.chance(50) {
+			a = build(8, cs).(*mq.Subscribe)
+		} else if o := readOnce(oneChunk(fa)); o.kind == 8 {
+			a = o.p.(*mq.Subscribe)
+		} else {
+			continue
+		}
+		b := mq.NewSubscribe()
+		b.AddFilters(a.Filters()...)
+		if g.chance(70) {
+			b.AddFilters(mq.NewTopicFilter("b/own", 1))
+		}
+		snapB, encB := snapshot(b), hexs(frameOf(b))
+		a.AddFilters(mq.NewTopicFilter("a/later", 2))
+		if fl := a.Filters(); len(fl) > 0 {
+			fl[0] = mq.NewTopicFilter("a/overwritten", 0)
+		}
+		a.AddFilters(mq.NewTopicFilter("a/later2", 0), mq.NewTopicFilter("a/later3", 0))
+		if snapshot(b) != snapB || hexs(frameOf(b)) != encB {
+			r.fail("packets-interfere", "H 8"+sp(cs)+" then b.AddFilters(a.Filters()...)", "adding filters to the packet the filters were taken from changed the other packet: "+trunc(snapshot(b))+" before "+trunc(snapB))
+		}
+		r.eval("filters-handed-over", true, sp(cs))
 	}
 	// decoding into packets that came from the constructors
 	for i := 0; i < n/10+5; i++ {
